@@ -42,14 +42,10 @@ Theorem C10_statements_render_is_spelling : forall l, l <> [] -> Forall StRender
 Proof. exact StRenderProofs.render_is_spelling. Qed.
 
 Theorem C10_statements_parse_render : forall name l, l <> [] -> Forall StRenderProofs.rstmt l ->
-  StParser.in_scope token StInstance.tok_class
-    (StRender.render_list l ++ StRender.nl1 ++ StRender.kwt KEndFunctionBlock :: StRender.nl1) = true ->
   StInstance.parse_fb_tokens (StRenderProofs.render_fb name l) = StInstance.OParsed l.
 Proof. exact StRenderProofs.parse_render_fb. Qed.
 
 Theorem C10_statements_fixed_point : forall name l, l <> [] -> Forall StRenderProofs.rstmt l ->
-  StParser.in_scope token StInstance.tok_class
-    (StRender.render_list l ++ StRender.nl1 ++ StRender.kwt KEndFunctionBlock :: StRender.nl1) = true ->
   match StInstance.parse_fb_tokens (StRenderProofs.render_fb name l) with
   | StInstance.OParsed l' => StRenderProofs.render_fb name l' = StRenderProofs.render_fb name l
   | _ => False
